@@ -431,7 +431,7 @@ impl Report {
         cov.insert("samples".into(), Value::Array(inner.samples.clone()));
         let st = self.states.load(Ordering::Relaxed);
         let tr = self.transitions.load(Ordering::Relaxed);
-        cov.insert("states".into(), json!(if st > 0 { st } else { distinct_n.max(1) }));
+        cov.insert("states".into(), json!(if st > 0 { st } else if distinct_n > 0 { distinct_n } else { evaluations.max(1) }));
         cov.insert("transitions".into(), json!(if tr > 0 { tr } else { evaluations.max(1) }));
         cov.insert(
             "traces_validated_against_impl".into(),
@@ -441,7 +441,9 @@ impl Report {
             }),
         );
         cov.insert("oracle_comparisons".into(), json!(self.comparisons.load(Ordering::Relaxed)));
-        cov.insert("distinct_outcomes".into(), json!(inner.outcomes.len()));
+        if !inner.outcomes.is_empty() {
+            cov.insert("distinct_outcomes".into(), json!(inner.outcomes.len()));
+        }
         cov.insert("exhaustive".into(), json!(*self.exhaustive.lock().unwrap()));
         cov.insert(
             "known_findings_seen".into(),
